@@ -185,14 +185,26 @@ CLAIMS = {
         text="Lean theorems (Props/C11.lean): for every environment, every call by which an operation can obtain a descriptor "
              "(openat, openat2, dup, fsopen, fsmount, open_tree) asks for close-on-exec — in particular the returned descriptor "
              "is close-on-exec (corollary of the discipline theorems, for every API operation and for the procfs handle "
-             "constructors). Tie: the model closes descriptors explicitly where Rust drops them; on every replayed case the "
-             "multiset of descriptors the model closes must equal the multiset the implementation closed (close(2) and "
-             "fcntl(F_DUPFD_CLOEXEC) are interposed in the harness). Oracle: the process's descriptor table (number, identity, "
-             "FD_CLOEXEC) before/after every API call of the suite, on success and error paths, Rust and C API.",
-        note="The leak-freedom statement itself (opened minus closed = returned) is established by the tie on every case, not "
-             "yet by an unbounded theorem over the explicit-close model (C11_no_leak_partial in DESIGN.md); RAII is the runtime "
-             "mechanism the model mirrors by hand.",
-        technique="Lean 4 proof (close-on-exec of every descriptor source) + close-multiset correspondence + fd-table oracle",
+             "constructors). Descriptor balance (C11_balance_*, Proofs/Ledger*.lean, 2 500 lines): for every environment in which "
+             "the kernel hands out only descriptor numbers that are not open (Fresh), walking through the calls of a run with a "
+             "ledger (a call whose answer hands out a descriptor adds it, a close removes it, undefined if the program closes a "
+             "number it was not handed in that run — in particular one of the caller's), the ledger is defined and what is left "
+             "open at the end is exactly the descriptor being returned (nothing on an error) — for resolve/resolve_nofollow, "
+             "open_subpath, reopen, readlink, create, create_file, remove_file/remove_dir, rename, mkdir_all, remove_all, the "
+             "partial lookup and the unmasked-handle constructor; on every success path, every error path, under every fault "
+             "placement and attacker schedule (these are environments), unless the run ended in a fatal model error (an answer of an "
+             "impossible shape, exhausted model fuel). Tie: the model closes descriptors explicitly where Rust drops them; on every "
+             "replayed case the multiset of descriptors the model closes must equal the multiset the implementation closed "
+             "(close(2) and fcntl(F_DUPFD_CLOEXEC) are interposed in the harness), and the model driver evaluates the same ledger "
+             "on the recorded calls of the implementation. Oracle: the process's descriptor table (number, identity, FD_CLOEXEC) "
+             "before/after every API call of the suite, on success and error paths, Rust and C API; the handle constructors in "
+             "three privilege situations; strace cross-check of the recorder (descriptors opened or closed behind its back).",
+        note="RAII is the runtime mechanism the model mirrors by hand (shared ownership Rc<OwnedFd> = descriptor numbers; freshness "
+             "of kernel-issued numbers is the hypothesis that makes the two coincide). rustix::fs::Dir's private descriptor is "
+             "inside the dir_open/dir_next abstraction of the model (its close is visible to the recorder and matched by the "
+             "driver). The C API's pending-error table and the Go/Python wrappers' own descriptor handling are covered by the "
+             "fd-table oracle only.",
+        technique="Lean 4 proof (close-on-exec of every descriptor source; descriptor-ledger balance for all environments by a Hoare-style ownership logic) + close-multiset correspondence + fd-table oracle",
         ref="DESIGN.md §8 C11"),
     "C12": dict(
         text="Lean theorems (Props/C12.lean + C03): a mode with bits outside 0o1777 and the empty path are refused before any call; for every "
@@ -255,7 +267,13 @@ CLAIMS = {
              "parent(s); nothing else. The final name is one non-empty slash-free component; a trailing slash never reaches the mutating "
              "call (C03_trailing_slash_*); C14_parent_is_spec / C14_parent_inside_root: when the parent lookup's answers come from a "
              "well-formed world, that descriptor is World.resolveInRoot of the parent path (the meaning of openat2 RESOLVE_IN_ROOT) on "
-             "either backend and lies inside the root's tree. Tie and oracle: generator of mostly-applicable single-entry operations (existing entries "
+             "either backend and lies inside the root's tree; C14_effect_* (Proofs/KEffect.lean): run against a well-formed world that "
+             "mutating calls change — the kernel's treatment of a mutating call (answer and tree afterwards) being an arbitrary "
+             "parameter — remove_file/remove_dir, create (every inode type; hard links with their second lookup), create_file and "
+             "rename leave exactly the world of the ONE mutating call on (specification's in-root resolution of the parent, final "
+             "name) and return the wrapper's translation of the kernel's answer; a failing parent lookup, a trailing slash or an "
+             "unsplittable path leave the world unchanged; the lookups never make a mutating call (for every environment). "
+             "Tie and oracle: generator of mostly-applicable single-entry operations (existing entries "
              "spelled plainly, through '..' detours, through links to the parent, with leading slash; fresh and existing destinations; "
              "all rename flags) plus the adversarial generator, both backends, replayed through the model; exact-effect oracle: the "
              "snapshot after = snapshot before with exactly the entry (kernel-resolved parent, name) created/removed/moved/exchanged "
